@@ -365,7 +365,8 @@ def calls_a_dunder(t):
 
 
 def roundtrip_signature(o):
-    """narrow description of a round-trip failure, matched against known_findings.d/C13.json"""
+    """narrow description of a round-trip failure, matched against known_findings.d/C13.json (no finding is listed
+    since 181daac: the causes below name the five repaired defects, so a regression is reported under its old name)"""
     sig = {"oracle": "roundtrip", "cause": "other"}
     p = o.get("parsed")
     if p is None:
@@ -1133,7 +1134,7 @@ def run(chk):
     chk.prove([], extra_vo=["theories/Model/ExprParseCases.vo"])
     chk.cov["trusted_base"] = [
         "Coq 8.16.1 kernel + vm_compute",
-        "hand models Model/PyExpr.v, ExprParse.v, ExprSem.v, ExprPrint.v of expr_rep.py / parse_by_lark.py / the scalar entries of pandas_base.impl_map (sampled by correspondence on every run); Model/ExprAst.v and ExprRoundtrip.v only supply the vocabulary of the theorems (ASTs with parentheses, printable, the guards)",
+        "hand models Model/PyExpr.v, ExprParse.v, ExprSem.v, ExprPrint.v of expr_rep.py / parse_by_lark.py / the scalar entries of pandas_base.impl_map (sampled by correspondence on every run); Model/ExprAst.v and ExprRoundtrip.v only supply the vocabulary of the theorems (ASTs with parentheses, printable, src_ok)",
         "the lexer: tokens are the ones the library's own lark lexer delivers (for accepted texts the contextual tokens the parser consumed); the Coq development starts from token lists",
         "lark's LALR parser and lexer for python3_lark.py are NOT modelled: Model/ExprParse.lark_of is a different (total, structurally recursive) parser for the accepted fragment whose agreement with lark is checked tree-for-tree on every generated text",
         "token values: int() / float() / ast.literal_eval() of literal tokens and repr() of constants are Python's (a literal token reaches Coq as its value; repr(v) is trusted to lex back to one literal token of the same value)",
@@ -1145,7 +1146,7 @@ def run(chk):
         "float arithmetic is exact rational arithmetic in the model; values observed from the implementation are compared with the 1e-8 relative rule",
         "texts whose lark tree uses a shape outside the modelled fragment (conditional expressions, lambda, subscripts, keyword/star arguments, comprehensions, in/is comparisons, adjacent strings, await, ellipsis) are outside the model; the walker rejects all of them",
         "Term attributes that are not expression builders (is_equal, to_python, to_source, act_on, get_*_names, object housekeeping dunders) are outside the model's method table",
-        "round trip theorem: for texts of well-formed source ASTs (Model/ExprAst.wfn: the modelled fragment in every parenthesisation) under the guards src_ok / expr_kf_ok, each guard being a listed known finding (dunder method calls written in the text, callees that are not names, infinite constants, lists of fewer than two items, -0.0 as the base of **)",
+        "round trip theorem: for texts of well-formed source ASTs (Model/ExprAst.wfn: the modelled fragment in every parenthesisation) whose NAME tokens are not operator symbols (src_ok: a fact about the lexer); no known finding is excluded (the five former ones were repaired by a6af5a7, e648ab6, 3753518, 181daac and are regression Examples / corpus texts)",
         "if_else is compared only on conditions that depend on a column (the library's if_else does not accept a constant condition: outside 'operators defined identically')",
     ]
     chk.cov["rule"] = ("random expression texts from a grammar over names (int/float/bool/str columns), int and float literals incl. negative and exponent forms, strings, "
